@@ -307,6 +307,55 @@ def f_ret(rng, sid):
     return sc
 
 
+def f_report(rng, sid):
+    """read / test handlers that report a size of their own through `data_size` — below, at and beyond the capacity they
+    were given (what `*data_size += snprintf(...)` does when the text is cut) — on the command path and on the event path,
+    with shared and separate buffers; in some cases an event's unit is waiting in the other half while the command answers"""
+    half = rng.choice([8, 12, 16, 24, 32])
+    shared = rng.random() < 0.6
+    sc = Scenario(sid, cap=rng.choice([1, 2, 8]), buf=2 * half if shared else half, uns=-1 if shared else rng.choice([half, 8, 20]), mutex=0)
+    ucap = half if shared else sc.uns
+    sc.group()
+    a = sc.slot(1, bytes([rng.randrange(256)]))
+    b = sc.slot(8, bytes(rng.choice(b"ABCDEFGH") for _ in range(8)))
+    vs = [Var(rng.choice([0, 1]), a, 1, 0, None, 0), Var(4, b, 8, 0, None, 0)]
+    sc.cmd(Cmd(b"+L", None, rng.choice(["rt", "r", "t", "rtx"]), vs[:rng.choice([0, 1, 2])] or None))
+    sc.cmd(Cmd(b"+E", None, "rt", vs[1:], group=-1))
+
+    def size(cap):
+        return rng.choice([0, 1, cap - 1, cap, cap + 1, cap + 2, 2 * cap, 2 * cap + 1, cap + half, 3 * half, 255, 4096])
+
+    def answers(cap, n):
+        out = []
+        for _ in range(n):
+            x = str(rng.choice([1, 2, 0, 3, 1, 2, -1, 7, 8]))
+            r = rng.random()
+            if r < 0.6:
+                x += "/z:%d" % size(cap)
+            elif r < 0.75:
+                x += "/e:" + hx(bytes(rng.choice(b"abc,") for _ in range(rng.randint(0, max(0, min(cap - 1, 6)))))) + "/z:%d" % size(cap)
+            out.append(x)
+        return out
+    pattern = rng.choice(["line", "event", "both"])
+    sc.op("hq " + ",".join(answers(half if pattern != "event" else ucap, rng.randint(1, 4)) + [rng.choice(["0", "3", "-1"])] + ["3"] * 6))
+    if pattern == "line":
+        sc.inp(b"AT+L" + rng.choice([b"?", b"=?"]) + rng.choice([b"\n", b"\r\n"]))
+        drain(sc, 3000)
+    elif pattern == "event":
+        sc.op("trig %d %d" % (rng.choice([0, 1]), rng.choice([1, 3])))
+        drain(sc, 3000)
+    else:
+        # an event is formatted and its unit waits (writes refused) while a line is answered
+        sc.op("trig 1 1")
+        for _ in range(rng.randint(2, 6)):
+            sc.op("svc 0 0 h=3")
+        sc.inp(b"AT+L" + rng.choice([b"?", b"=?"]) + b"\n")
+        for _ in range(rng.randint(4, 40)):
+            sc.op("svc 1 0")
+        drain(sc, 3000)
+    return sc
+
+
 def f_rnext(rng, sid):
     """read / test handlers that answer NEXT or DATA_NEXT a few times before finishing, for commands with several
     variables: every round must start from the freshly formatted automatic text"""
@@ -789,7 +838,7 @@ def f_woevt(rng, sid):
 
 
 FAMILIES = {
-    "woevt": f_woevt, "listevt": f_listevt, "rnext": f_rnext, "flagmid": f_flagmid, "holdtick": f_holdtick,
+    "woevt": f_woevt, "listevt": f_listevt, "rnext": f_rnext, "report": f_report, "flagmid": f_flagmid, "holdtick": f_holdtick,
     "mixed": f_mixed, "lines": f_lines, "table": f_table, "num": f_num, "buf": f_buf, "cap": f_cap, "ret": f_ret,
     "sched": f_sched, "evt": f_evt, "hold": f_hold, "mutex": f_mutex, "list": f_list, "access": f_access,
     "fit": f_fit, "bigambig": f_bigambig, "tabevt": f_tabevt,
@@ -806,15 +855,15 @@ def generate(seed, family, n, prefix=None):
 PLAN = {
     "C01": [("lines", 60, 600), ("cap", 40, 400), ("sched", 40, 400), ("mixed", 40, 400), ("table", 20, 200)],
     "C02": [("table", 50, 800), ("tabevt", 40, 500), ("bigambig", 6, 40), ("lines", 50, 500), ("mixed", 30, 300)],
-    "C03": [("cap", 60, 600), ("fit", 60, 600), ("buf", 40, 500), ("evt", 30, 300), ("mixed", 50, 600), ("list", 20, 300), ("num", 20, 300)],
+    "C03": [("cap", 60, 600), ("fit", 60, 600), ("buf", 40, 500), ("evt", 30, 300), ("mixed", 50, 600), ("list", 20, 300), ("num", 20, 300), ("report", 60, 800)],
     "C04": [("num", 120, 2000), ("lines", 30, 300), ("mixed", 20, 200)],
     "C05": [("buf", 120, 2000), ("lines", 30, 300), ("mixed", 20, 200)],
-    "C06": [("cap", 100, 1200), ("lines", 30, 300), ("ret", 60, 500), ("rnext", 40, 300), ("mixed", 20, 200)],
+    "C06": [("cap", 100, 1200), ("lines", 30, 300), ("ret", 60, 500), ("rnext", 40, 300), ("report", 30, 300), ("mixed", 20, 200)],
     "C07": [("access", 60, 800), ("fit", 100, 1500), ("rnext", 60, 500), ("ret", 30, 300), ("lines", 40, 400), ("mixed", 20, 200)],
     "C08": [("access", 100, 1200), ("woevt", 40, 500), ("lines", 30, 300), ("mixed", 20, 200)],
     "C09": [("lines", 100, 1200), ("table", 40, 400), ("flagmid", 40, 500), ("tabevt", 20, 300), ("mixed", 30, 300)],
-    "C10": [("ret", 200, 3000), ("listevt", 40, 400), ("lines", 30, 300), ("mixed", 30, 300)],
-    "C11": [("evt", 60, 700), ("mixed", 60, 700), ("sched", 30, 300), ("list", 20, 200)],
+    "C10": [("ret", 200, 3000), ("listevt", 40, 400), ("report", 30, 300), ("lines", 30, 300), ("mixed", 30, 300)],
+    "C11": [("evt", 60, 700), ("mixed", 60, 700), ("sched", 30, 300), ("list", 20, 200), ("report", 30, 300)],
     "C12": [("sched", 100, 1200), ("mixed", 30, 300)],
     "C13": [("evt", 100, 1200), ("mixed", 40, 400), ("hold", 20, 200)],
     "C14": [("hold", 100, 1200), ("holdtick", 10, 100), ("mixed", 40, 400)],
